@@ -31,8 +31,13 @@ pub fn compute_min_utxo(
     let index = coercion::expr_into_number(&x)?;
     let overhead = 160;
 
-    let total_bytes = if let Some(body) = tx_body {
-        let utxo = body.outputs.get(index as usize).unwrap();
+    // the body is the one compiled last by this instance: on the first round of a new
+    // transaction it belongs to an earlier one and may not have that output at all
+    let known_output = tx_body
+        .as_ref()
+        .and_then(|body| usize::try_from(index).ok().and_then(|i| body.outputs.get(i)));
+
+    let total_bytes = if let Some(utxo) = known_output {
         let bytes = pallas::codec::minicbor::to_vec(utxo).unwrap().len() as i128;
         bytes + overhead
     } else {
